@@ -704,9 +704,10 @@ def enumerated_agg_program(rng, nrules=12, dom=4):
     return Program(rels, rules), ['a', 'b', 'c'], picked
 
 
-def enumerated_program(rng, nrules=12, dom=4):
+def enumerated_program(rng, nrules=12, dom=4, probes=True):
     """a program made of `nrules` rule shapes sampled without replacement from the shape space (all heads are the recursive
-    relation h, so every shape also occurs with dynamic clauses), plus a seed rule"""
+    relation h, so every shape also occurs with dynamic clauses). With probes, rule i has a second head p<i> with the same
+    arguments: what each rule derived stays observable even when h is saturated by the other rules."""
     global _SHAPES
     if _SHAPES is None:
         _SHAPES = rule_shape_space()
@@ -721,6 +722,10 @@ def enumerated_program(rng, nrules=12, dom=4):
         if r is None:
             continue
         picked.append(i)
+        if probes:
+            pn = 'p%d' % len(rules)
+            rels.append(Rel(pn, [T.I32, T.I32]))
+            r = Rule(r.heads + [Head(pn, list(r.heads[0].args))], r.body)
         rules.append(r)
     prog = Program(rels, rules)
     return prog, ['a', 'b', 'c'], picked
